@@ -85,7 +85,23 @@ def probe_force_fd(inp: Dict[str, Any]) -> Dict[str, Any]:
                        "uhf": uhf, "excited": bool(inp.get("excited"))}}
 
 
-PROBES = {"force_fd": probe_force_fd}
+def probe_evaluator_history(inp: Dict[str, Any]) -> Dict[str, Any]:
+    """in ONE process: the same atom list evaluated analytically under a sequence of Hamiltonians (and semi-numerically); each force must equal the
+    reverse-mode force of the same Hamiltonian (the evaluators share no hidden state keyed on the atom list alone)"""
+    names = inp["names"]
+    bad = []
+    for method in inp["methods"]:
+        for mode in inp.get("modes", [[True]]):
+            fa = esh.run_named(names, esh.settings(method=method, eps=1e-10, analytical=mode))["force"]
+            fr = esh.run_named(names, esh.settings(method=method, eps=1e-10))["force"]
+            d = float(np.abs(fa - fr).max())
+            if d > 2e-5:
+                bad.append(f"{method} {('semi-numerical' if len(mode) > 1 else 'analytical')} force after the sequence {inp['methods'][:inp['methods'].index(method)]} differs from autodiff by {d:.3e} eV/A")
+    return {"ok": not bad, "observed": bad[:4], "expected": "evaluators agree whatever ran before in the process", "predicate": "analytical == autodiff along a history of Hamiltonians",
+            "fields": {"kinds": ["evaluator_history"] if bad else [], "molecule": "+".join(names)}}
+
+
+PROBES = {"force_fd": probe_force_fd, "evaluator_history": probe_evaluator_history}
 
 
 def gen_cases(ctx: Ctx):
@@ -124,6 +140,10 @@ def gen_cases(ctx: Ctx):
     # open shells (UHF doublet / triplet), ions are in the pools
     for nm, m in ([("no", "AM1"), ("oh", "PM3"), ("o2", "MNDO")] if ctx.thorough else [("oh", "AM1")]):
         cases.append({"names": [nm], "method": m, "uhf": True, "stratum": "generic:", "seed": 7, "cross": False, "eps": 1e-9})
+    # unrestricted references in BATCHES with the analytical / semi-numerical evaluators (homogeneous and zero-padded mixed)
+    cases.append({"names": ["oh", "oh"], "target": int(rng.integers(0, 2)), "method": "AM1", "uhf": True, "analytical": [True], "stratum": "generic:", "seed": int(rng.integers(0, 10**6)), "cross": False, "eps": 1e-10})
+    cases.append({"names": ["no", "oh"], "target": int(rng.integers(0, 2)), "method": str(rng.choice(["PM3", "MNDO"])), "uhf": True, "analytical": [[True], [True, "numerical"]][int(rng.integers(0, 2))],
+                  "stratum": "generic:", "seed": int(rng.integers(0, 10**6)), "cross": False, "eps": 1e-10, "pad_to": 2})
     # excited states (analytical Z-vector gradient; and autodiff through scf_backward=1)
     cases.append({"names": ["ch2o"], "method": "AM1", "excited": {"n_states": 3, "method": "cis", "tolerance": 1e-8}, "active_state": 1, "stratum": "generic:", "seed": 4, "eps": 1e-11, "tol": 2e-5})
     if ctx.thorough:
@@ -217,6 +237,14 @@ def run(ctx: Ctx):
             ctx.obligation("correspondence adapters C01 ran", False, traceback.format_exc()[-1500:], kind="harness")
     finally:
         drv.close()
+    # histories of Hamiltonians on the same atom list inside one process
+    hist = [{"names": ["ch3cl"], "methods": ["AM1", "PM3", "MNDO", "PM6_SP"], "modes": [[True]]},
+            {"names": [str(ctx.rng.choice(["h2o", "ch2o", "h2s"]))], "methods": [str(v) for v in ctx.rng.permutation(["PM3", "AM1", "PM6_SP"])], "modes": [[True], [True, "numerical"]]}]
+    for c, r in zip(hist, mdh.pmap(probe_evaluator_history, hist)):
+        if isinstance(r, Exception) or r is None:
+            ctx.obligation("probe evaluator_history evaluated", False, repr(r)[-1200:], kind="harness")
+            continue
+        ctx.probe_case("evaluator_history", c, r["ok"], fields=r["fields"], observed=r["observed"], expected=r["expected"], predicate=r["predicate"], stratum="history")
     cases = gen_cases(ctx)
     results = mdh.pmap(probe_force_fd, cases, timeout=2400)
     for c, r in zip(cases, results):
